@@ -30,6 +30,13 @@ func extras(prop string) (map[string]any, []string) {
 			"after a tampered dealing nothing further is asserted (the global challenge covers the whole dealing)",
 			"sampling; finite Byzantine menus",
 		}
+	case "C14":
+		return nil, []string{
+			"faults are placed where they carry meaning in the 3-move protocol (the randomness commitment of the last message is never opened, so altering it is not a semantic change)",
+			"a blocked clique is detected with a timer on the bubble's fake clock, which fires only when every task is durably blocked",
+			"verifier goroutines that kyber leaves parked after an aborted session are counted (probe), not asserted",
+			"sampling within <=4 Or-branches, <=4 And-terms, <=3 terms per Rep, <=5 clique participants",
+		}
 	case "C10":
 		return nil, []string{
 			"sampling within n<=6, t in 2..n, <=3000 events per run; both VSS variants on Ed25519",
